@@ -274,6 +274,49 @@ def bulk(chk):
                               '%d packets queued, then %s: %s of them are on the wire (first missing: %s)' % (total, mode, len(got) if isinstance(got, list) else got, miss))
 
 
+def reentrant_disconnect(chk):
+    """disconnect() called from an ordinary outgoing listener, i.e. re-entrantly from inside the write of packet j (the write lock
+    is re-entrant, and such a listener is how a client says goodbye after its last packet): every packet queued before it
+    still reaches the wire exactly once, in order, and the thread ends without an error."""
+    from minecraft.networking.connection import Connection
+    Raw = make_packets()
+    for n, j in ((5, 0), (5, 2), (5, 4), (1, 0), (320, 299), (320, 310)):
+        net = sim.Net([sim.Server([], end='idle')], idle_limit=8).install()
+        errs = []
+        try:
+            conn = Connection('localhost', 25565, username='user', allowed_versions={757}, handle_exception=lambda e, i: errs.append(e))
+            fired = [False]
+
+            def bye(p):
+                if not fired[0] and p.data[:2] == bytes([j >> 8, j & 0xff]):
+                    fired[0] = True
+                    conn.disconnect()
+            conn.register_packet_listener(bye, Raw, outgoing=True)
+            conn.connect()
+            for i in range(n):
+                p = Raw()
+                p.id = 0x30
+                p.data = bytes([i >> 8, i & 0xff]) + b'y' * (i % 5)
+                conn.write_packet(p)
+            res = net.run_threads(conn, max_threads=1)
+        finally:
+            net.uninstall()
+        chk.count('reentrant-disconnect', [n, j], True)
+        try:
+            frames = proto.parse_frames(b''.join(net.servers[0].sends))
+            got = [(b[0] << 8) | b[1] for pid, b in frames if pid == 0x30]
+        except Exception as e:
+            got = 'unparseable (%s)' % exn_name(e)
+        what = None
+        if got != list(range(n)):
+            what = 'the wire carries packets %s' % (got if not isinstance(got, list) or len(got) < 12 else '%s... (%d frames)' % (got[:12], len(got)))
+        elif errs or any(isinstance(r[1], tuple) for r in res):
+            what = 'the networking thread reported %s' % ([exn_name(e) for e in errs] or [exn_name(r[1][1]) for r in res if isinstance(r[1], tuple)])
+        if what:
+            chk.violation('reentrant-disconnect', 'reentrant:%d:%d' % (n, j), {'case': {'queued': n, 'disconnect_in_listener_of_packet': j}, 'observed': what},
+                          '%d packets queued, an outgoing listener calls disconnect() while packet %d is being written: %s; expected each of 0..%d once, in order' % (n, j, what, n - 1))
+
+
 def random_policy(rng, sticky=0.6):
     def pol(k, runnable, default):
         if rng.random() < sticky:
@@ -349,6 +392,7 @@ def run(chk):
             good.append((run_, tags))
     replay_on_model(chk, good, 'replay')
     bulk(chk)
+    reentrant_disconnect(chk)
     if good:
         chk.sample('random', {'programs': good[-1][0].progs, 'wire': good[-1][1], 'preemptions': good[-1][0].preempt}, k=1)
     chk.assumptions += ['PARTIAL: the granularity of atomicity is assumed - deque.append / popleft and one socket.send are atomic, a blocking send transmits all its bytes; real OS preemption is represented by the scheduling points only',
